@@ -24,6 +24,31 @@ CLAIMED = {
             "DESIGN.md section 5 (C04)", DS_NOTE),
 }
 
+def sync_entry(what, ref):
+    return ("stateful property-based testing (Hypothesis) of generated multi-actor programs under a "
+            "harness-owned deterministic scheduler and virtual clock; inline oracle: " + what +
+            "; deadlock and step-budget oracle for lost wake-ups",
+            "exploration",
+            "Generated programs (ULT / tasklet / external-thread actors on 1-3 streams) run under "
+            "generated schedules (random pre-emption, PCT) plus sanitizer and real-parallel modes; "
+            "each run checks " + what + ". Finds interleaving-dependent violations with replayable "
+            "cases; does not prove absence.", ref, DS_NOTE)
+
+
+CLAIMED["C05"] = sync_entry("credit accounting under the monitor mutex (no spurious, lost or duplicated "
+                            "wake-up; waiter returns holding the mutex)", "DESIGN.md section 5 (C05)")
+CLAIMED["C08"] = sync_entry("per-round arrival counters (nobody released before n arrivals, nobody "
+                            "counted twice, reinit honoured)", "DESIGN.md section 5 (C08)")
+CLAIMED["C09"] = sync_entry("set/wait/test ordering, value bytes of the single successful set, exact "
+                            "success counts and callback-before-ready for futures",
+                            "DESIGN.md section 5 (C09)")
+CLAIMED["C10"] = sync_entry("reader/writer holder counters and the reader-rendezvous pattern",
+                            "DESIGN.md section 5 (C10)")
+CLAIMED["C19"] = sync_entry("phase-structured timed waits on the virtual clock: exactly the waiters whose "
+                            "deadline passed time out, each later signal releases exactly one remaining "
+                            "waiter, TIMEDOUT only after the deadline (cond part; blocking pool pops are "
+                            "added with the pool ops)", "DESIGN.md section 5 (C19)")
+
 NOT_BUILT = "check not built yet in this session (see DESIGN.md section 10 for the build order)"
 
 
